@@ -234,7 +234,13 @@ func verifRunScript() {
 			copy(id[:], fmt.Sprintf("%d", ev.ID))
 			m := nsq.NewMessage(id, body)
 			m.Delegate = dlg
-			f.HandleMessage(m)
+			// deliver the way go-nsq's Consumer.handlerLoop does: call the handler, then
+			// auto-respond unless the handler disabled it
+			if err := f.HandleMessage(m); err != nil {
+				m.Requeue(-1)
+			} else if !m.IsAutoResponseDisabled() {
+				m.Finish()
+			}
 		case "hup":
 			f.hupChan <- true
 		case "term":
